@@ -59,6 +59,52 @@ func devMain(args []string) int {
 			return 2
 		}
 		return 0
+	case "trace":
+		fs := flag.NewFlagSet("trace", flag.ExitOnError)
+		seed := fs.Int64("seed", 1, "")
+		n := fs.Int("n", 20, "")
+		feat := fs.String("features", "medium", "")
+		ops := fs.Int("ops", 30, "")
+		pf := fs.Float64("pfault", 0.1, "")
+		show := fs.Int("show", 3, "")
+		fs.Parse(args[1:])
+		cfg := TraceSpecCfg{Name: *feat, Seed: *seed, Containers: *n, Features: fam.Presets[*feat],
+			Driver: run.DriverOpts{MaxOps: *ops, PFault: *pf, PInvoke: 0.35},
+			Opts:   []cat.Opts{{Recover: true}, {Recover: false}, {Recover: true, Defer: true}, {Dry: true, Recover: true}}}
+		st, err := traceStage(cfg, 10*time.Minute, *show)
+		if st != nil {
+			fmt.Println(st.summary())
+			for _, e := range st.TLC.Errors {
+				fmt.Println("TLC:", e)
+			}
+			for _, e := range st.HarnessErr {
+				fmt.Println("HARNESS:", e)
+			}
+			for _, e := range st.Disagree {
+				fmt.Println("DISAGREE:", e)
+			}
+			for _, c := range st.Crashes {
+				fmt.Println("CRASH:", c)
+			}
+			for _, ex := range st.Examples {
+				fmt.Printf("--- %s op=%d: %s\n", ex.Div.Kind, ex.Div.Op, ex.Div.Detail)
+				fmt.Println("    catalog:", ex.Rec.Cat.JSON(), ex.Rec.Opt)
+				for i, h := range ex.Rec.Ops {
+					if i > ex.UpTo {
+						break
+					}
+					h2 := *h
+					h2.Snap = nil
+					b, _ := json.Marshal(h2)
+					fmt.Printf("    %d %s\n", i, b)
+				}
+			}
+		}
+		if err != nil {
+			fmt.Println("error:", err)
+			return 2
+		}
+		return 0
 	case "cat":
 		fs := flag.NewFlagSet("cat", flag.ExitOnError)
 		seed := fs.Int64("seed", 1, "")
